@@ -1258,7 +1258,10 @@ func runL1History(g *gen, mode string, nops int, hstats map[string]int, faulty, 
 					// (Vacuum first scans the table through a cursor, which re-reads the root node: reads
 					// the model's in-memory tree does not issue; node faults only for plain history deletion)
 					nd := "%" + strconv.Itoa(1+g.r.Intn(n))
-					menu = append(menu, faultSpec{"G", "n", nd, 0, fErr, false}, faultSpec{"G", "n", nd, 0, fErr, true})
+					// (the node is unreadable throughout the operation: a fault on its FIRST read only would
+					//  hit the tolerant candidate phase or the strict keep phase depending on the order in
+					//  which the implementation's map iteration visits the candidates)
+					menu = append(menu, faultSpec{"G", "n", nd, 0, fErr, true})
 				}
 			}
 			if len(menu) > 0 {
